@@ -75,7 +75,10 @@ def dumpLines (db : DB) : List String :=
       | none => if off < maxDisk then pageLine zeroPage false else s!"problem off={off} absent"
   let absent := pages.filter (·.startsWith "problem")
   let present := pages.filter fun l => !l.startsWith "problem"
-  [hdr] ++ present ++ absent ++ db.wal.map fun r => s!"rec op={r.op} lsn={r.lsn} page={r.page} cell={r.cell} val={hexOfBytes r.val}"
+  -- a disagreement between the heap model and the levels model (about which C01/C11 are proved)
+  -- shows up as an extra line the implementation never prints: the correspondence breaks
+  let ghost := if s.ghost == 0 then [] else [s!"levels-model-disagrees inserts={s.ghost}"]
+  [hdr] ++ ghost ++ present ++ absent ++ db.wal.map fun r => s!"rec op={r.op} lsn={r.lsn} page={r.page} cell={r.cell} val={hexOfBytes r.val}"
 
 def showRows (rows : List (Nat × List Tuple.Val)) : String :=
   ("rows " ++ " | ".intercalate (rows.map fun r => s!"{r.1}: " ++ " ".intercalate (r.2.map Tuple.showVal))).trimAscii.toString
@@ -297,6 +300,13 @@ def judgeRoots (j : J) (outs : List String) : J × List String :=
   let roots : List (String × Nat) := match outs.find? (·.startsWith "roots") with
     | some l => (words l).drop 1 |>.filterMap fun w => match w.splitOn "=" with | [n, o] => o.toNat?.map (n, ·) | _ => none
     | none => []
+  -- The engine reaches the page table through the header's root field, never through the page
+  -- table's row about itself (that row keeps the offset of the first page for ever: nothing
+  -- updates it when the page table's root moves, and nothing reads it except a user's
+  -- `SELECT * FROM sys_pages`, whose scan starts at the leftmost leaf - which that page remains).
+  let ptRoot : Option Nat := (outs.find? (·.startsWith "hdr ")).bind fun l =>
+    (words l).findSome? fun w => match w.splitOn "=" with | ["ptroot", o] => o.toNat? | _ => none
+  let roots := roots.map fun (n, root) => if n == "7379735f7061676573" then (n, ptRoot.getD root) else (n, root)
   let vs := roots.flatMap fun (n, root) =>
     (Spec.Shape.check heap root).map fun p => vio j s!"db:shape:{(p.splitOn " ").headD p}" s!"table={n} root={root} problem=[{p}]"
   (j, vs.take 5)
